@@ -307,8 +307,14 @@ def run_cases(binary, cases, workdir, timeout=300, watchdog=60, halt=False,
                          extra_header, valgrind)
     if confirm_hangs:
         texts = dict(cases)
+        confirmed = 0
         for cid, r in list(results.items()):
             if r.status == "timeout" and cid in texts:
+                if confirmed >= 2:
+                    # two hangs of this batch were confirmed already: the
+                    # rest is reported as it is (a tree that hangs on many
+                    # inputs must not cost minutes for each of them)
+                    continue
                 again = _run_cases(binary, [(cid, texts[cid])],
                                    workdir + "-hang", max(timeout, 900),
                                    watchdog * 6, halt, extra_header, valgrind)
@@ -317,6 +323,8 @@ def run_cases(binary, cases, workdir, timeout=300, watchdog=60, halt=False,
                     r2.detail = (r2.detail + " (first run hit the %d s "
                                  "watchdog)" % watchdog).strip()
                     results[cid] = r2
+                else:
+                    confirmed += 1
                 shutil.rmtree(workdir + "-hang", ignore_errors=True)
     return results
 
